@@ -104,7 +104,10 @@ def inline_calls(fn_node, helpers, max_rounds=3):
         out, changed = [], False
         for s in stmts:
             call = target = None
-            if isinstance(s, ast.Expr) and isinstance(s.value, ast.Call):
+            is_return = False
+            if isinstance(s, ast.Return) and isinstance(s.value, ast.Call):
+                call, is_return = s.value, True
+            elif isinstance(s, ast.Expr) and isinstance(s.value, ast.Call):
                 call = s.value
             elif isinstance(s, ast.Assign) and len(s.targets) == 1 and isinstance(s.targets[0], ast.Name) and isinstance(s.value, ast.Call):
                 call, target = s.value, s.targets[0]
@@ -113,13 +116,22 @@ def inline_calls(fn_node, helpers, max_rounds=3):
                     len(call.args) == len(h.args.args) and all(_simple(a) for a in call.args):
                 params = [a.arg for a in h.args.args]
                 bind = dict(zip(params, call.args))
-                locals_ = {n.id for n in ast.walk(h) if isinstance(n, ast.Name) and isinstance(n.ctx, ast.Store)} - set(params)
-                # a parameter that the helper re-binds cannot be substituted
-                if any(isinstance(n, ast.Name) and isinstance(n.ctx, ast.Store) and n.id in params for n in ast.walk(h)):
-                    out.append(s)
-                    continue
+                stored = {n.id for n in ast.walk(h) if isinstance(n, ast.Name) and isinstance(n.ctx, ast.Store)}
+                locals_ = stored - set(params)
                 counter[0] += 1
-                new = _rewrite_body(h.body, target, f"_{h.name.strip('_')}{counter[0]}_", bind, locals_)
+                prefix = f"_{h.name.strip('_')}{counter[0]}_"
+                pre = []
+                # a parameter that the helper re-binds becomes a local that starts as the argument
+                for p_ in [q for q in params if q in stored]:
+                    pre.append(ast.Assign(targets=[ast.Name(id=prefix + p_, ctx=ast.Store())], value=copy.deepcopy(bind.pop(p_))))
+                    locals_.add(p_)
+                tmp = None
+                if is_return:
+                    tmp = ast.Name(id=prefix + "result", ctx=ast.Store())
+                    target = tmp
+                new = pre + _rewrite_body(h.body, target, prefix, bind, locals_)
+                if is_return:
+                    new.append(ast.Return(value=ast.Name(id=tmp.id, ctx=ast.Load())))
                 for n_ in new:
                     ast.copy_location(n_, s)
                     ast.fix_missing_locations(n_)
